@@ -59,8 +59,32 @@ package server
 
 // ---- uploadBlob: nil means the registry already has the blob (HEAD answered < 400) or the
 // ---- shared blobUpload finished without error (Wait)
-//@ extern func (*blobUpload).Prepare
-//@   modifies b.Total, b.Parts, b.nextURL, b.done
+// Prepare: on success either the blob was mounted (201: done) or the upload session is open:
+// parts are laid out and the channel that hands the next upload URL to Run exists.
+//@ extern func net/url.(*URL).Query
+//@   modifies nothing
+//@ extern func net/url.(Values).Add
+//@   modifies nothing
+//@ extern func net/url.(Values).Encode
+//@   modifies nothing
+//@ extern func net/url.Parse
+//@   modifies nothing
+//@   ensures result.1 == nil ==> result.0 != nil
+//@ extern func os.Stat
+//@   modifies nothing
+//@   ensures result.1 == nil ==> result.0 != nil
+//@ extern func io/fs.(FileInfo).Size
+//@   pure reads none
+//@   ensures result >= 0
+//@ extern func format.HumanBytes
+//@   modifies nothing
+//@ extern func sync/atomic.(*Int64).Store
+//@   modifies nothing
+//@ func (*blobUpload).Prepare
+//@   requires len(b.Digest) >= 19
+//@   assume-at call GetBlobsPath #1 : ErrInvalidDigestFormat != nil   -- package-level errors.New value, assigned once at package init
+//@   ensures result == nil ==> b.done || b.nextURL != nil
+//@   modifies b.Total, b.Parts, b.nextURL, b.done, requestURL.RawQuery, requestURL.Scheme, opts.Token
 // blobUpload.Wait: nil is returned only from the `b.done || b.err != nil` exit with b.err == nil,
 // i.e. when Run (or Prepare, for a mounted blob) set done without an error
 //@ extern func (*blobUpload).acquire
@@ -76,6 +100,7 @@ package server
 //@   modifies nothing
 //@ func (*blobUpload).Wait
 //@   requires len(b.Digest) >= 19
+//@   assume-at call (Context).Done #1 : len(b.Digest) >= 19     -- b.Digest is set once when the blobUpload is created; the progress callback fn (unknown function: everything havocked) does not write it
 // returns in block order: #1 `return b.err` (upload.go:337)   #2 `return ctx.Err()` (326)
 //@   assert-at return #1 : (b.done || b.err != nil) && result == b.err
 //@ func uploadBlob
@@ -95,3 +120,18 @@ package server
 //@   ghost-at after call (*blobUpload).Wait #1 : ghost_waited := ite(result == nil, 1, 0)
 //@   assert-at call LoadOrStore #1 : ghost_head == 0
 //@   assert-at call (*blobUpload).Wait #1 : arg0 == upload
+
+// ---- blobUpload.Run: b.done is set only on the path where g.Wait() returned nil (all parts
+// ---- uploaded) and after the commit PUT loop; b.err then is the error of the last commit attempt
+//@ extern func golang.org/x/sync/errgroup.WithContext
+//@   modifies nothing
+//@   ensures result.0 != nil
+//@ func (*blobUpload).Run
+//@   requires len(b.Digest) >= 19
+// Run receives the commit URL from b.nextURL even when there are no parts: a nil channel
+// blocks forever (and the deferred blobUploadManager.Delete never runs)
+//@   requires b.nextURL != nil
+//@   assume-at call GetBlobsPath #1 : ErrInvalidDigestFormat != nil   -- package-level errors.New value, assigned once at package init
+//@   ghost-at entry : ghost_waited := 0
+//@   ghost-at after call errgroup.(*Group).Wait #1 : ghost_waited := ite(result == nil, 1, 0)
+//@   assert-at call makeRequestWithRetry #1 : ghost_waited == 1 && arg1 == "PUT"
